@@ -356,6 +356,10 @@ def cancelling : AtomS :=
   { name := "C1", resinum := 0, element := "C", x := 0.1, y := 0.2, z := 0.3, u11 := 0.02, u22 := 0.01, u33 := 0.01,
     u23 := -0.01, u13 := -0.005, u12 := -0.005, occ := 1, part := 0, qpeak := false }
 
+/-- labels of atoms in residues with negative and large numbers keep their suffix (RESI -999 … 9999) -/
+example : label { cancelling with resinum := -3 } = "C1_-3" ∧ label { cancelling with resinum := 9999 } = "C1_9999" ∧
+    label cancelling = "C1" := by decide +kernel
+
 example : specAniso cancelling = true ∧ isIso cancelling = false := by decide +kernel
 theorem legacy_isotropic_fails_on : isIsoLegacy cancelling = true ∧ specAniso cancelling = true := by decide +kernel
 example : (atomLoop [cancelling, { cancelling with name := "Q1", qpeak := true }]).map (·.label) = ["C1"] := by decide +kernel
